@@ -810,6 +810,7 @@ type Facts struct {
 	Problems    []string            `json:"problems"`
 	Translated  map[string]string   `json:"translated"` // function -> "" (translated) | reason it was refused
 	GenWritten  []string            `json:"gen_written"`
+	Inlined     []string            `json:"inlined"` // call sites of pure scalar helpers replaced by the helper's body (inline.go)
 	LibPins     map[string]string   `json:"lib_pins"` // library function the model transcribes -> hash of its source
 }
 
@@ -898,6 +899,15 @@ func main() {
 			}
 		}
 		if p.prefix == "" {
+			// calls of pure scalar helpers (`func validEntLen(n int) bool { return … }`) are replaced by their
+			// bodies before anything else looks at the functions (inline.go)
+			facts.Inlined = append(normaliseLibraryCalls(files), normaliseMoreLibraryCalls(files)...)
+			facts.Inlined = append(facts.Inlined, inlinePureHelpers(files)...)
+			facts.Inlined = append(facts.Inlined, foldErrNilTests(files)...)
+			facts.Inlined = append(facts.Inlined, normaliseLoops(files)...)
+			facts.Inlined = append(facts.Inlined, normaliseStatements(files)...)
+			facts.Inlined = append(facts.Inlined, inlineStringConsts(files)...)
+			collectGateConsts(files)
 			// the gate conditions are translated; they become holes of the skeletons computed below
 			funcs := map[string]*ast.FuncDecl{}
 			for _, rel := range order {
